@@ -6,6 +6,10 @@ from vmon.oracle import geometry as G
 CLASSES = ["single", "pair_hetero", "pair_homo", "collinear3", "planar_d3h", "pyramid_c3v", "twofold", "asym4", "asym5", "asym6", "chiral4", "chiral5", "planar_mirror_pair", "flat_polygon"]
 
 
+SPECIAL_DIRECTIONS = [(1, 1, 1), (1, 1, 1), (1, 1, 1), (1, 1, -1), (1, -1, 1), (-1, 1, 1), (1, 1, 0), (1, 0, 1), (0, 1, 1), (1, -1, 0), (1, 0, -1), (1, 2, 1), (2, 1, 2), (1, -2, 1),
+                      (1, 2, 3), (3, 1, 2), (1, 1, 2), (2, 2, 1)]
+
+
 def _min_dist(pos):
     pos = np.asarray(pos, float)
     if len(pos) < 2:
@@ -141,12 +145,27 @@ def make(rng, cls):
         k = int(rng.integers(3))
         sgn = 1.0 if rng.integers(2) else -1.0
         target = sgn * np.eye(3)[k]
+        special = None
+        if rng.integers(5) < 2:
+            # ... or along a body diagonal, a face diagonal or another direction with small whole-number components (a linker lying
+            # along [111] or [110] of a cubic framework, cut out without re-orienting it). The axis vector is exact: a multiple of
+            # 1/64 times whole numbers, the first axis atom on a 1/4 grid - so that v, roll(v), v[::-1], |v| all show their
+            # coincidences (equal components, palindromes, a zero component) exactly
+            special = SPECIAL_DIRECTIONS[int(rng.integers(len(SPECIAL_DIRECTIONS)))]
+            special = tuple(int(c) for c in np.array(special) * (1 if rng.integers(2) else -1))
+            target = np.array(special, float) / np.linalg.norm(special)
         pos = (pos - pos[i]).dot(G.rotation_taking(pos[j] - pos[i], target).T)
         pos = pos.dot(G.rotation_about(target, rng.uniform(0, 2 * np.pi)).T)
-        off = pos[j] - np.linalg.norm(pos[j]) * target
-        pos[j] = np.linalg.norm(pos[j]) * target          # exactly on the axis
-        frame = "axis%s%s" % ("+" if sgn > 0 else "-", "xyz"[k])
-        pos = pos + np.round(rng.uniform(-2, 2, 3), 1)
+        if special is None:
+            pos[j] = np.linalg.norm(pos[j]) * target          # exactly on the axis
+            frame = "axis%s%s" % ("+" if sgn > 0 else "-", "xyz"[k])
+            pos = pos + np.round(rng.uniform(-2, 2, 3), 1)
+        else:
+            q = max(1.0, np.round(np.linalg.norm(pos[j]) / np.linalg.norm(special) * 64)) / 64.0
+            pos[i] = 0.0
+            pos[j] = q * np.array(special, float)
+            frame = "direction[%d%d%d]" % tuple(abs(c) for c in special)
+            pos = pos + np.round(rng.uniform(-2, 2, 3) * 4) / 4
     elif r == 1:
         # a proper signed permutation of the axes (exact), no other rotation
         perms = [np.array(m) for m in ([[1, 0, 0], [0, 1, 0], [0, 0, 1]], [[0, 1, 0], [0, 0, 1], [1, 0, 0]], [[-1, 0, 0], [0, -1, 0], [0, 0, 1]],
@@ -245,6 +264,19 @@ def valid_hint_sets(p, rng, k=4):
             for o in range(n):
                 if o not in (i, j) and off_axis(i, j, o) >= 0.2:
                     cands.append((None, None, o))
+    # one axis point (either keyword) together with an orientation point: the second axis point is the atom farthest from the
+    # given one (unique by a margin), the orientation point any third atom off that axis; the given axis index above and below
+    # the orientation index
+    mixed = []
+    if n > 2:
+        for a in range(n):
+            if not unique_argmax(D[a]):
+                continue
+            far = int(np.argmax(D[a]))
+            for o in range(n):
+                if o not in (a, far) and off_axis(a, far, o) >= 0.2:
+                    mixed.append((a, None, o))
+                    mixed.append((None, a, o))
     seen = []
     for c in cands:
         if c not in seen:
@@ -255,4 +287,12 @@ def valid_hint_sets(p, rng, k=4):
     rest = [c for c in seen if c not in zero and c not in single0]
     rng.shuffle(rest)
     rng.shuffle(zero)
-    return out + single0 + zero[:1] + rest[:k]
+    if mixed:
+        above = [c for c in mixed if (c[0] if c[0] is not None else c[1]) > c[2]]
+        below = [c for c in mixed if c not in above]
+        pick = []
+        for grp in (above, below):
+            if grp:
+                pick.append(grp[int(rng.integers(len(grp)))])
+        mixed = pick
+    return out + single0 + zero[:1] + rest[:k] + mixed
